@@ -14,6 +14,7 @@ import (
 	"path/filepath"
 	"regexp"
 	"strings"
+	"sync"
 	"time"
 )
 
@@ -156,6 +157,8 @@ func (g *goCompiler) expr(x Expr) string {
 			r := g.expr(n.Args[0])
 			g.oldMode = save
 			return r
+		case "disjoint":
+			return fmt.Sprintf("govcDisjoint(%s, %s)", g.expr(n.Args[0]), g.expr(n.Args[1]))
 		case "sameptr":
 			return fmt.Sprintf("(govcPtr(%s) == govcPtr(%s))", g.expr(n.Args[0]), g.expr(n.Args[1]))
 		case "typeis", "allocated", "base", "off", "embed", "pre":
@@ -382,6 +385,11 @@ func tryReplay(o *Obligation, prog *Program, b *strings.Builder) {
 			fmt.Fprintf(b, "replay: not available (%v)\n", r)
 		}
 	}()
+	if o.Status != "failed" || len(o.Model) == 0 {
+		fmt.Fprintf(b, "replay: the solvers returned no model for this obligation (status %s)\n", o.Status)
+		witnessSearch(o, prog, b)
+		return
+	}
 	src, why := buildReplayTest(o, prog)
 	if src == "" {
 		fmt.Fprintf(b, "replay: not available: %s\n", why)
@@ -403,7 +411,54 @@ func tryReplay(o *Obligation, prog *Program, b *strings.Builder) {
 	witnessSearch(o, prog, b)
 }
 
+type searchResult struct {
+	done   chan struct{}
+	tf     string
+	out    string
+	failed bool
+	why    string
+}
+
+var searchCache = map[string]*searchResult{}
+var searchMu sync.Mutex
+
+// one witness search per function, shared by all its failed obligations
 func witnessSearch(o *Obligation, prog *Program, b *strings.Builder) {
+	e := o.enc
+	searchMu.Lock()
+	sr, ok := searchCache[e.key]
+	if !ok {
+		sr = &searchResult{done: make(chan struct{})}
+		searchCache[e.key] = sr
+	}
+	searchMu.Unlock()
+	if ok {
+		<-sr.done
+	} else {
+		src, why := buildSearchTest(o, prog)
+		if src == "" {
+			sr.why = why
+		} else {
+			dir := filepath.Join(verifDir, "replay", firstProp(o))
+			sr.tf = filepath.Join(dir, sanitizeFile(e.key)+"_search_test.go.txt")
+			os.WriteFile(sr.tf, []byte(src), 0o644)
+			sr.out, sr.failed = runReplayTest(e.fn.Pkg.Pkg.Path(), sr.tf)
+		}
+		close(sr.done)
+	}
+	if sr.tf == "" {
+		fmt.Fprintf(b, "witness search: not available: %s\n", sr.why)
+		return
+	}
+	if sr.failed {
+		o.replayed = true
+		fmt.Fprintf(b, "witness search: %s\nreplay command: govc replay %s %s\nwitness search result: the real function violates its contract\n%s\n", sr.tf, e.fn.Pkg.Pkg.Path(), sr.tf, trimOutN(sr.out, 3000))
+		return
+	}
+	fmt.Fprintf(b, "witness search: no failing input found in the explored scope\n%s\n", trimOutN(sr.out, 2000))
+}
+
+func witnessSearchOld(o *Obligation, prog *Program, b *strings.Builder) {
 	e := o.enc
 	src, why := buildSearchTest(o, prog)
 	if src == "" {
@@ -500,13 +555,16 @@ func buildReplayTest(o *Obligation, prog *Program) (string, string) {
 		if vals != nil {
 			break
 		}
+		if len(plan.sizeCs) == 0 {
+			break // no size to vary
+		}
 	}
 	if vals == nil {
 		return "", "no small model (slice lengths <= 300) found for the failed obligation"
 	}
 	var sb strings.Builder
 	fmt.Fprintf(&sb, "package %s\n\n// generated by govc: replay of %s\n\nimport (\n\t\"fmt\"\n\t\"reflect\"\n\t\"testing\"\n)\n\n", e.pkg.Name(), o.Name)
-	sb.WriteString("func govcPtr(x interface{}) uintptr { v := reflect.ValueOf(x); if v.Kind() == reflect.Slice && v.Len() == 0 && v.Cap() == 0 { return 0 }; return v.Pointer() }\nvar _ = fmt.Sprint\nvar _ = govcPtr\n\n")
+	sb.WriteString(goHelpers + "\n")
 	for _, s := range g.specSrc {
 		sb.WriteString(s + "\n")
 	}
@@ -520,7 +578,7 @@ func buildReplayTest(o *Obligation, prog *Program) (string, string) {
 			olds = append(olds, fmt.Sprintf("\told_%s := append(%s(nil), %s...)", p.Name(), plan.qualifier(p.Type()), p.Name()))
 		case *types.Pointer:
 			_ = u
-			olds = append(olds, fmt.Sprintf("\tvar old_%s = %s; if %s != nil { c := *%s; old_%s = &c }", p.Name(), p.Name(), p.Name(), p.Name(), p.Name()))
+			olds = append(olds, snapshotPtr(p.Name(), p.Type(), plan.qualifier))
 		default:
 			olds = append(olds, fmt.Sprintf("\told_%s := %s", p.Name(), p.Name()))
 		}
@@ -601,7 +659,7 @@ func queryValues(o *Obligation, plan *replayPlan) []string {
 	defer os.RemoveAll(tmp)
 	f := filepath.Join(tmp, "m.smt2")
 	os.WriteFile(f, []byte(b.String()), 0o644)
-	for _, solver := range [][]string{{"z3-new", "-T:20", f}, {"z3", "-T:20", f}} {
+	for _, solver := range [][]string{{"z3-new", "-T:6", f}} {
 		out, _ := exec.Command(solver[0], solver[1:]...).CombinedOutput()
 		s := string(out)
 		if firstWord(s) != "sat" {
